@@ -47,3 +47,11 @@ def r5_registry(run, tree):
 
 
 RULES = [r1_table, r2_strict_conversion, r3_bool_dimensionless, r4_end_to_end, r5_registry]
+
+
+def t_pair_space(run, tree):
+    run.rule("C07.T1", "thorough: every comparison over all ordered pairs of 15 units: sign of the difference of the physical quantities, dimensionless result, refusal exactly for differing dimensions", "D7 fold of the whole Array class (and Vector.to) with dispatching numpy models and symbolic-scale units, over the complete product of the unit list", "", floor=1)
+    qs.check_unit_pair_space(run, tree, kinds=("cmp",))
+
+
+THOROUGH_RULES = [t_pair_space]
